@@ -296,3 +296,85 @@ func TestVerifReplay(t *testing.T) {
 }
 ''' % {'content': content, 'k': (pos + 1) if isinstance(pos, int) else 0, 'op': m, 'call': call or '_ = 0', 'want': want}
         return 'io', src
+
+
+@family(r'/tokenizers/utilities\.CharReference')
+class CharMapFamily(Family):
+    MAXN = 3
+
+    def inputs(self):
+        d = {}
+        names = [p['n'] for p in self.func.params]
+        if 'symbol' in names:
+            d['symbol'] = 'symbol'
+        if 'start' in names:
+            d['start'] = 'start'
+            d['end'] = 'end'
+        if self.func.params and self.func.params[0]['t'].endswith('CharReferenceMap'):
+            d['n'] = 'len(c.otherIntervals)'
+            for i in range(self.MAXN):
+                d['s%d' % i] = 'c.otherIntervals[%d].start' % i
+                d['e%d' % i] = 'c.otherIntervals[%d].end' % i
+        return d
+
+    def bounds(self):
+        if 'n' in self.inputs():
+            return ['len(c.otherIntervals) <= %d' % self.MAXN]
+        return []
+
+    def test_source(self, vals):
+        n = vals.get('n', 0)
+        if not isinstance(n, int) or n < 0 or n > self.MAXN:
+            n = 0
+        regs = []
+        for i in reversed(range(n)):
+            s, e = vals.get('s%d' % i, 256), vals.get('e%d' % i, 256)
+            if not isinstance(s, int) or not isinstance(e, int) or s > e or s < 0 or s > 0xfffe:
+                continue
+            regs.append('{%d, %d, "r%d"}' % (s, e, i))
+        m = self.func.short
+        sym = vals.get('symbol', 300)
+        st, en = vals.get('start', 0), vals.get('end', 0)
+        if m == 'AddInterval' and isinstance(st, int) and isinstance(en, int) and 0 <= st <= en and st <= 0xfffe:
+            regs.append('{%d, %d, "new"}' % (st, en))
+        if m == 'AddDefaultInterval':
+            regs.append('{0, 0xfffe, "new"}')
+        probes = [0, 255, 256, 0xfffe, 0xffff]
+        for v in (sym, st, en):
+            if isinstance(v, int):
+                probes += [v - 1, v, v + 1]
+        for i in range(n):
+            for k in ('s%d' % i, 'e%d' % i):
+                if isinstance(vals.get(k), int):
+                    probes += [vals[k] - 1, vals[k], vals[k] + 1]
+        probes = sorted(set(p for p in probes if -2 <= p <= 0x10ffff))
+        src = '''package utilities
+
+import "testing"
+
+type vreg struct { s, e rune; ref string }
+
+// reference semantics of the property statement: the most recent registration whose range (clipped to
+// U+FFFE) contains the character wins; nothing if there is none.
+func voracle(regs []vreg, ch rune) any {
+	for i := len(regs) - 1; i >= 0; i-- {
+		e := regs[i].e
+		if e >= 0xffff { e = 0xfffe }
+		if regs[i].s <= ch && ch <= e { return regs[i].ref }
+	}
+	return nil
+}
+
+func TestVerifReplay(t *testing.T) {
+	regs := []vreg{%(regs)s}
+	m := NewCharReferenceMap()
+	if %(clear)s { m.Clear(); regs = nil }
+	for _, r := range regs { m.AddInterval(r.s, r.e, r.ref) }
+	for _, ch := range []rune{%(probes)s} {
+		got := m.Lookup(ch)
+		want := voracle(regs, ch)
+		if got != want { t.Fatalf("Lookup(%%#x) = %%v (%%T), latest covering registration is %%v; registrations %%v", ch, got, got, want, regs) }
+	}
+}
+''' % {'regs': ', '.join(regs), 'probes': ', '.join(str(p) for p in probes), 'clear': 'true' if m == 'Clear' else 'false'}
+        return 'tokenizers/utilities', src
